@@ -6,7 +6,8 @@ package go9p
 // are symbolic strings of length 0..L over the alphabet {'.', '/', 'a'} (alphabet=4: plus 'b'); the fid used starts at depth 0, 1 or 2
 // (or at the unclean spelling "/r/a/.." of the root). Every call that reaches the model FS with a path must name a
 // path that an independent lexical resolver (below; "", "." and ".." resolved element by element, no symlinks by
-// hypothesis) places inside /r; after the request every fid of the connection must still designate something
+// hypothesis) places inside /r (calls that only query — lstat/stat/readlink — are, unless strict is set, judged by
+// their effect instead: no qid of an object outside /r may appear in the reply); after the request every fid of the connection must still designate something
 // inside /r (so that the argument repeats: requests that only use the fid's own path stay inside as well), which
 // includes "'..' at the root stays at the root". The real filepath.Join/Clean and path.Split run symbolically.
 // The model tree has canaries next to and above the root (/a, /a/a, /aa) so that escaping walks can continue.
@@ -70,7 +71,7 @@ func vxSymAlpha(name string, maxLen int) string {
 
 var vxH18Ops = []string{"attach", "walk", "walk2", "create", "rename"}
 
-func vxH18Confine(dotu bool, op int, L int, alphabet int) {
+func vxH18Confine(dotu bool, op int, L int, alphabet int, strict bool) {
 	vxAlphabet = alphabet
 	k := vxNewUfsKit(dotu, 8192)
 	fs := k.fs
@@ -90,16 +91,34 @@ func vxH18Confine(dotu bool, op int, L int, alphabet int) {
 
 	opname := vxH18Ops[op]
 	id := opname + "-stays-inside-root"
+	// Calls that create, open, change or remove must name a path inside the root. Pure queries (lstat/stat/readlink)
+	// are judged by what the client gets to see (below) unless strict is set: a query on an outside path whose
+	// result is thrown away lets the client read nothing.
+	outsideQueries := 0
 	fs.check = func(cop string, p string) {
 		switch cop {
 		case "lookup", "lookupid", "close", "readat", "writeat", "readdir":
 			return
 		}
 		in := refInside(vxRoot, p)
+		if !strict && (cop == "lstat" || cop == "stat" || cop == "readlink") {
+			if !in {
+				outsideQueries++
+				vxObserve("outside-query", cop)
+			}
+			return
+		}
 		if !in {
 			vxObserve("escaping-call", cop)
 		}
 		vxAssert(in, id)
+	}
+	// inode numbers of everything that is not below /r
+	outIno := []uint64{fs.root.ino}
+	for _, e := range outside {
+		if !(e.depth == 0 && e.name == "r") {
+			outIno = append(outIno, e.in.ino)
+		}
 	}
 
 	starts := []string{vxRoot, vxRoot + "/a", vxRoot + "/a/a", vxRoot + "/a/.."}
@@ -155,6 +174,20 @@ func vxH18Confine(dotu bool, op int, L int, alphabet int) {
 	if rc == nil {
 		return
 	}
+	// the reply reveals nothing about objects outside the root
+	var qids []Qid
+	switch rc.Type {
+	case Rattach, Rcreate:
+		qids = append(qids, rc.Qid)
+	case Rwalk:
+		qids = rc.Wqid
+	}
+	for _, q := range qids {
+		for _, ino := range outIno {
+			vxAssert(q.Path != ino, opname+"-returns-qid-of-object-outside-root")
+		}
+	}
+	vxObserve("outside-queries", outsideQueries)
 	// every fid still designates something inside the root
 	for _, no := range []uint32{1, 2, 5} {
 		f := k.conn.fidpool[no]
